@@ -113,13 +113,24 @@ reg(Check("C17", "model_checking",
 reg(Check("C12", "exploration",
           "tokens: 36 issued tokens (3 uids x 3 levels x 4 feature sets), each with all 400 single-bit and 79800 double-bit "
           "mutations, all truncations, extensions by 1..8 bytes, foreign/zero key, serial +-1, expired, level above root; "
-          "non-trivial = distinct mutated tokens",
-          ["HMAC-SHA256 / HMAC-MD5 / bcrypt are assumed unforgeable; expiry boundary second is not probed with the real clock"],
-          text="Bounded-exhaustive enumeration of token and key mutations against an independent signer.",
-          note="reset codes, API keys and passwords are decided by parts in package main",
+          "API keys: 36 signed keys, each with all 192 single-bit and (quick: first bit in the signed data / thorough: all 18336) "
+          "double-bit mutations, all truncations, extensions, every character position x every byte value of the text form, foreign "
+          "and empty salt. Secrets: breadth-first search over histories of 23 operations (reset request for two addresses and an "
+          "unknown one; current / wrong / foreign / superseded / suffix-less code; password logins incl. upper-case and empty; account "
+          "creation with logins differing by case; 16 minutes passing), each from a fresh connection, to depth 5 (quick) / 9 (thorough) "
+          "against a reference model {address -> code, wrong guesses, used; login -> password}. "
+          "Non-trivial = distinct mutated tokens / keys / canonical model states.",
+          ["HMAC-SHA256 / HMAC-MD5 / bcrypt are assumed unforgeable; expiry boundary second is not probed with the real clock",
+           "reset codes are delivered through a fake validator ('mailbox'); a refused valid code is only counted once time has passed "
+           "(codes may expire); store faults and concurrent guesses are outside the quantifier (inputs, histories)"],
+          text="Bounded-exhaustive enumeration of token and key mutations against an independent signer; explicit-state search over "
+               "reset-code / password / account histories through the real session code.",
+          note="",
           technique="bounded-exhaustive enumeration against a reference model",
           engine="E4 enum", claimed=True,
-          parts=[Part("token", "server/auth/token", "^TestVerifC12Token$", shards=(12, 12))]))
+          parts=[Part("token", "server/auth/token", "^TestVerifC12Token$", shards=(12, 12)),
+                 Part("secrets", SRV, "^TestVerifC12Secrets$", instr=True, deadline=(300, 3000), gomaxprocs=16),
+                 Part("apikey", SRV, "^TestVerifC12APIKey$", instr=True)]))
 
 # machinery self-tests (not a property; never in MANIFEST)
 reg(Check("SELF", "other", "machinery self tests", [], claimed=False,
